@@ -4,7 +4,7 @@
 use std::{sync::Arc, time::Duration};
 
 use crate::{
-    app::{api_drop_writer, api_write, gen_vec, run_reader, stream_key, ApiCtx, ReaderPlan, ReaderStop},
+    app::{api_drop_writer, api_shutdown, api_write, gen_vec, run_reader, stream_key, ApiCtx, ReaderPlan, ReaderStop},
     events::{Ev, Us, MS, SEC},
     peer::Peer,
     prng::Prng,
@@ -18,6 +18,20 @@ pub enum Action {
     Data(u32),
     Fin,
     Wait(Us),
+    /// the real endpoint's application shuts its writer down (its FIN goes out; the peer keeps
+    /// sending: the half-closed states FinWait1/FinWait2)
+    LocalShutdown,
+}
+
+/// What the scripted peer does after its FIN was sent in sequence.
+#[derive(Clone, Debug)]
+pub struct AfterFin {
+    /// false: the peer never acknowledges the real endpoint's FIN, which therefore stays in its
+    /// last-ACK state while the packets below arrive
+    pub ack_our_fin: bool,
+    /// Data(idx) with idx > number of packets: data numbered after the FIN; Data(idx) below: an old
+    /// duplicate; Fin: another copy of the FIN
+    pub acts: Vec<Action>,
 }
 
 #[derive(Clone, Debug)]
@@ -41,6 +55,7 @@ pub struct RxCfg {
     pub a_writes: usize,
     pub limit: Us,
     pub keep_snapshots: bool,
+    pub after_fin: Option<AfterFin>,
 }
 
 impl RxCfg {
@@ -51,10 +66,24 @@ impl RxCfg {
                 Action::Data(i) => acts.push_str(&format!("D{} ", i)),
                 Action::Fin => acts.push_str("FIN "),
                 Action::Wait(us) => acts.push_str(&format!("w{}ms ", us / MS)),
+                Action::LocalShutdown => acts.push_str("LOCAL-SHUTDOWN "),
             }
         }
+        let mut after = String::new();
+        if let Some(af) = &self.after_fin {
+            after.push_str(&format!(" after_fin(ack_our_fin={})=[", af.ack_our_fin));
+            for a in &af.acts {
+                match a {
+                    Action::Data(i) => after.push_str(&format!("D{} ", i)),
+                    Action::Fin => after.push_str("FIN "),
+                    Action::Wait(us) => after.push_str(&format!("w{}ms ", us / MS)),
+                    Action::LocalShutdown => {}
+                }
+            }
+            after.push(']');
+        }
         format!(
-            "{} sock[{}] role={} peer_isn={} reader[{}] pkts={} lens(first)={:?} respect_window={} complete={} fin={} a_writes={} script({} actions)=[{}{}]",
+            "{} sock[{}] role={} peer_isn={} reader[{}] pkts={} lens(first)={:?} respect_window={} complete={} fin={} a_writes={} script({} actions)=[{}{}]{after}",
             if self.ipv6 { "v6" } else { "v4" },
             self.sock.describe(),
             if self.real_initiates { "real-connects" } else { "real-accepts" },
@@ -109,7 +138,9 @@ pub async fn rx_scenario(world: Arc<World>, cfg: RxCfg, case_seed: u64) -> RxOut
         None => return out,
     };
     out.connected = true;
-    let (r, mut w) = stream.split();
+    let (r, w) = stream.split();
+    let mut w = Some(w);
+    let mut shut: Option<(tokio::task::JoinHandle<()>, tokio::sync::oneshot::Sender<()>)> = None;
     let key = stream_key(case_seed, 0, 0);
     let pkey = stream_key(case_seed, 0, 1);
     let ctx = |side: u8| ApiCtx { log: world.log.clone(), conn: 0, side };
@@ -123,7 +154,7 @@ pub async fn rx_scenario(world: Arc<World>, cfg: RxCfg, case_seed: u64) -> RxOut
     if cfg.a_writes > 0 {
         let buf = gen_vec(key, 0, cfg.a_writes);
         let c = ctx(0);
-        let _ = api_write(&c, &mut w, &buf).await;
+        let _ = api_write(&c, w.as_mut().unwrap(), &buf).await;
     }
     let offsets = cfg.offsets();
     let n = cfg.lens.len() as u32;
@@ -131,8 +162,13 @@ pub async fn rx_scenario(world: Arc<World>, cfg: RxCfg, case_seed: u64) -> RxOut
     let mut a_ack: i64 = -1; // highest index of our stream it acknowledged cumulatively
     let mut a_wnd: u32 = 1 << 20;
     let mut fin_sent = false;
+    // set while the peer pretends not to have seen the real endpoint's FIN
+    let mute = std::cell::Cell::new(false);
     let update = |peer: &mut Peer, a_ack: &mut i64, a_wnd: &mut u32| {
         let pkts = peer.drain(|_, _, _| true);
+        if mute.get() {
+            peer.remote_fin_idx = None;
+        }
         for k in &pkts {
             let ai = wire::seq_diff(k.ack, peer.first_seq) as i64;
             if ai > *a_ack {
@@ -141,7 +177,7 @@ pub async fn rx_scenario(world: Arc<World>, cfg: RxCfg, case_seed: u64) -> RxOut
             *a_wnd = k.wnd;
         }
         // acknowledge whatever the real endpoint sent us (its own small writes / FIN)
-        if pkts.iter().any(|k| k.ty == wire::ST_DATA || k.ty == wire::ST_FIN) {
+        if pkts.iter().any(|k| k.ty == wire::ST_DATA || (k.ty == wire::ST_FIN && !mute.get())) {
             let p = peer.state_pkt(1 << 20, true);
             peer.send(p);
         }
@@ -166,6 +202,22 @@ pub async fn rx_scenario(world: Arc<World>, cfg: RxCfg, case_seed: u64) -> RxOut
             Action::Wait(us) => {
                 world.sleep_us(*us).await;
                 update(&mut peer, &mut a_ack, &mut a_wnd);
+            }
+            Action::LocalShutdown => {
+                if let Some(mut wr) = w.take() {
+                    let c = ctx(0);
+                    let (tx, rx) = tokio::sync::oneshot::channel::<()>();
+                    let h = tokio::spawn(async move {
+                        tokio::select! {
+                            _ = api_shutdown(&c, &mut wr) => {}
+                            _ = rx => {}
+                        }
+                        api_drop_writer(&c, wr);
+                    });
+                    shut = Some((h, tx));
+                    world.step().await;
+                    update(&mut peer, &mut a_ack, &mut a_wnd);
+                }
             }
             Action::Fin => {
                 if !fin_sent {
@@ -220,10 +272,41 @@ pub async fn rx_scenario(world: Arc<World>, cfg: RxCfg, case_seed: u64) -> RxOut
             update(&mut peer, &mut a_ack, &mut a_wnd);
         }
         if cfg.fin && !fin_sent && a_ack >= n as i64 - 1 {
+            if let Some(af) = &cfg.after_fin {
+                if !af.ack_our_fin && peer.remote_fin_idx.is_none() {
+                    mute.set(true);
+                }
+            }
             let p = Pkt::new(wire::ST_FIN, peer.id_send, peer.first_seq.wrapping_add(n as u16), peer.ack_nr(), 1 << 20);
             peer.send(p);
+            fin_sent = true;
             world.step().await;
             update(&mut peer, &mut a_ack, &mut a_wnd);
+        }
+        // packets after the FIN
+        if let (true, Some(af)) = (fin_sent && a_ack >= n as i64 - 1, &cfg.after_fin) {
+            for act in &af.acts {
+                match act {
+                    Action::Wait(us) => {
+                        world.sleep_us(*us).await;
+                        update(&mut peer, &mut a_ack, &mut a_wnd);
+                    }
+                    Action::Fin => {
+                        let p = Pkt::new(wire::ST_FIN, peer.id_send, peer.first_seq.wrapping_add(n as u16), peer.ack_nr(), 1 << 20);
+                        peer.send(p);
+                        world.step().await;
+                        update(&mut peer, &mut a_ack, &mut a_wnd);
+                    }
+                    Action::Data(idx) => {
+                        if *idx != n {
+                            send_data(&mut peer, *idx);
+                            world.step().await;
+                            update(&mut peer, &mut a_ack, &mut a_wnd);
+                        }
+                    }
+                    Action::LocalShutdown => {}
+                }
+            }
         }
     }
     // let delayed ACKs, window updates and the reader finish
@@ -263,7 +346,13 @@ pub async fn rx_scenario(world: Arc<World>, cfg: RxCfg, case_seed: u64) -> RxOut
         hr.abort();
     }
     let c = ctx(0);
-    api_drop_writer(&c, w);
+    if let Some(w) = w.take() {
+        api_drop_writer(&c, w);
+    }
+    if let Some((h, tx)) = shut.take() {
+        let _ = tx.send(());
+        let _ = h.await;
+    }
     world.sleep_us(50 * MS).await;
     out.ended_at = world.now();
     drop(sock);
@@ -428,6 +517,35 @@ pub fn generate(case_seed: u64, focus: RxFocus, max_pkts: usize) -> RxCfg {
             script.push(Action::Wait(rng.range(1500, 8000) * MS));
         }
     }
+    // half-closed connection: the real endpoint's writer is shut down somewhere in the script
+    let mut aux = Prng::new(case_seed ^ 0xAF7E_51DE);
+    if aux.chance(0.25) {
+        let pos = aux.below(script.len() as u64 + 1) as usize;
+        script.insert(pos, Action::LocalShutdown);
+    }
+    let fin = rng.chance(0.7);
+    let after_fin = if fin && aux.chance(0.4) {
+        let k = aux.range(1, 6);
+        let mut acts = Vec::new();
+        let mut beyond = n as u32 + 1;
+        for _ in 0..k {
+            match aux.below(5) {
+                0 | 1 => {
+                    acts.push(Action::Data(beyond));
+                    beyond += 1;
+                }
+                2 => acts.push(Action::Data(aux.below(n as u64) as u32)),
+                3 => acts.push(Action::Fin),
+                _ => acts.push(Action::Wait(*aux.pick(&[1u64, 10, 39, 45, 120, 400, 1200]) * MS)),
+            }
+            if aux.chance(0.3) {
+                acts.push(Action::Wait(aux.range(1, 300) * MS));
+            }
+        }
+        Some(AfterFin { ack_our_fin: aux.chance(0.4), acts })
+    } else {
+        None
+    };
     RxCfg {
         ipv6,
         sock,
@@ -439,9 +557,10 @@ pub fn generate(case_seed: u64, focus: RxFocus, max_pkts: usize) -> RxCfg {
         script,
         respect_window,
         complete: true,
-        fin: rng.chance(0.7),
+        fin,
         a_writes: if rng.chance(0.3) { rng.log_range(1, 3000) as usize } else { 0 },
         limit: 400 * SEC,
         keep_snapshots: false,
+        after_fin,
     }
 }
